@@ -2,21 +2,21 @@ SPECIFICATION Spec
 CONSTANTS
   Enforce = {"C01", "C02", "C03", "C04"}
   N = 2
-  Methods = {"GET", "HEAD"}
-  Vers = {11, 10}
+  Methods = {"GET"}
+  Vers = {11}
   ReqConns = {"-", "close"}
-  ReqBodies = {"none"}
+  ReqBodies = {"none", "cl"}
   Pends = {0, 1}
-  Reads = {"none"}
+  Reads = {"none", "all"}
   Keeps = {"handler"}
-  RespBodies = {"bytes", "stream"}
+  RespBodies = {"empty", "bytes", "stream"}
   RespConns = {"-"}
-  Statuses = {200, 204}
+  Statuses = {200}
   BadAt = 0
   BadKind = ""
-  Budgets = {99}
+  Budgets = {0, 1, 99}
   HalfClosed = TRUE
-  UpgAt = 0
+  UpgAt = 2
   DEV_UpgradeDropsWbuf = FALSE
   KaOn = TRUE
   DEV_CtxShared = FALSE
